@@ -438,7 +438,9 @@ impl<'de> Deserialize<'de> for OptionWrapper<Inventory> {
                     }
 
                     if let Some(highest_version) = versions.nums.iter().rev().next() {
-                        if head != highest_version {
+                        // Version numbers are equal regardless of their zero-padding, but the head
+                        // must be spelled the way the version is named
+                        if head != highest_version || head.width != highest_version.width {
                             self.result.error(
                                 ErrorCode::E040,
                                 format!(
